@@ -12,7 +12,7 @@ def plan(pid, tier, seed):
         "harness": "unusedimport",
         "mc": mc,
         "gen": [],
-        "rand": 300 if quick else 6000,
+        "rand": 1200 if quick else 8000,
         "trace": TRACE,
     }
 
